@@ -91,7 +91,7 @@ def one_replicate(spec):
             rows = [r for f in files for r in f["rows"]]
         else:
             files = [{"rows": rows}]
-        case = {"files": files, "refeed_seed": spec.get("refeed_seed"), "folds": spec["folds"], "workers": 1, "cap": spec.get("cap"), "keyw": 2, "fmt": "pin",
+        case = {"files": files, "refeed_seed": spec.get("refeed_seed"), "pred_chunk": int(spec.get("pred_chunk", 700000)), "folds": spec["folds"], "workers": 1, "cap": spec.get("cap"), "keyw": 2, "fmt": "pin",
                 "thr": [1, 20], "train_thr": [1, 20], "seed": spec["seed"], "est": spec["est"], "col": 1, "override": True,
                 "max_iter": 3, "direction": "f1" if spec["est"] in ("memo", "feat") else None, "leak": spec.get("leak", False)}
         if spec.get("leak"):
@@ -209,6 +209,9 @@ def run(ctx):
                       "est": "memo", "nfiles": 2, "group": "memo+2files"})
         extra.append({"seed": ctx.seed * 100000 + 800000 + r, "n": 1500, "pi0": 0.5, "sep": [2.0, 3.0][r % 2], "folds": 2 + r % 3,
                       "est": "memo", "refeed_seed": 1 + r, "group": "memo+reseed"})
+        # held-out scoring in several prediction chunks (the default chunk holds 700000 rows)
+        extra.append({"seed": ctx.seed * 100000 + 850000 + r, "n": 1500, "pi0": 0.5, "sep": [2.0, 3.0][r % 2], "folds": 2 + r % 3,
+                      "est": "memo", "pred_chunk": [170, 333, 700][r % 3], "group": "memo+chunks"})
     specs += extra
     nleak = 6
     for r in range(nleak):     # instrument check: with leaky training sets the memoriser must break the bound
@@ -224,7 +227,7 @@ def run(ctx):
     # ---- FdrTrace groups: (learner, level, alpha) over replicates
     traces, meta = [], []
     failed_runs = sum(1 for s, r in zip(specs, res) if r["raised"])
-    for est in learners + ["memo+cap", "paired-ties/feat", "paired-ties/tree", "memo+2files", "memo+reseed", "memo+leak"]:      # one group per learner: a mixture of learners would inflate the SE
+    for est in learners + ["memo+cap", "paired-ties/feat", "paired-ties/tree", "memo+2files", "memo+reseed", "memo+chunks", "memo+leak"]:      # one group per learner: a mixture of learners would inflate the SE
         sel = [r for s, r in zip(specs, res) if (s.get("group") or (s["est"] + ("+leak" if s.get("leak") else ""))) == est and not r["raised"]]
         if len(sel) < 2:
             continue
